@@ -1854,6 +1854,7 @@ class _gpg_multivalued(_multivalued):
     def __init__(self, *args, **kwargs):
         # type: (*Any, **Any) -> None
         self.raw_text = None  # type: Optional[bytes]
+        own_encoding = None   # type: Optional[str]
         try:
             sequence = args[0]
         except IndexError:
@@ -1870,8 +1871,12 @@ class _gpg_multivalued(_multivalued):
             # verify correctly, but this is the best we can reasonably manage.
             # For accurate verification, the file should be opened in binary
             # mode.
+            try:
+                given_encoding = args[3]
+            except IndexError:
+                given_encoding = kwargs.get('encoding', 'utf-8')
             encoding = (getattr(sequence, 'encoding', None)
-                        or kwargs.get('encoding', 'utf-8') or 'utf-8')
+                        or given_encoding or 'utf-8')
             if isinstance(sequence, bytes):
                 self.raw_text = sequence
             elif isinstance(sequence, str):
@@ -1921,12 +1926,21 @@ class _gpg_multivalued(_multivalued):
                     args = tuple(argsl)
                 except IndexError:
                     kwargs["sequence"] = lines
-                if text_lines and len(args) < 4:
+                if text_lines:
                     # the lines are bytes in this encoding now (see above), so
                     # that is what they have to be decoded with
-                    kwargs["encoding"] = line_encoding
+                    if len(args) < 4:
+                        kwargs["encoding"] = line_encoding
+                    else:
+                        args = args[:3] + (line_encoding,) + args[4:]
+                    own_encoding = encoding
 
         _multivalued.__init__(self, *args, **kwargs)
+        if own_encoding is not None:
+            # (the paragraph itself is in the encoding of the text it was
+            # read from, not in the one its lines were passed on with)
+            self.encoding = own_encoding
+            self.decoder = _AutoDecoder(self.encoding)
 
     @staticmethod
     def _bytes(s, encoding):
